@@ -371,9 +371,34 @@ func (set *Set) add(hosts ...*Host) {
 		return
 	}
 	for _, host := range hosts {
+		// the address may already be present as another object (e.g. re-added
+		// with another type): the old object leaves the set.
+		if old, ok := set.all[host.Addr]; ok && old != host {
+			set.dropFromHealthy(old)
+			old.markRemoved()
+		}
 		set.all[host.Addr] = host
+		if !host.IsHealthy() {
+			continue
+		}
+		switch host.Type {
+		case TypeMain:
+			set.healthyMain[host.Addr] = host
+		case TypeBackup:
+			set.healthyBackup[host.Addr] = host
+		}
 	}
-	set.addToHealthy(hosts...)
+	set.buildHealthyCache()
+}
+
+// dropFromHealthy removes the host from both healthy maps without rebuilding the cache.
+func (set *Set) dropFromHealthy(h *Host) {
+	if cur, ok := set.healthyMain[h.Addr]; ok && cur == h {
+		delete(set.healthyMain, h.Addr)
+	}
+	if cur, ok := set.healthyBackup[h.Addr]; ok && cur == h {
+		delete(set.healthyBackup, h.Addr)
+	}
 }
 
 // Remove removes host from the set.
@@ -388,10 +413,16 @@ func (set *Set) remove(hosts ...*Host) {
 		return
 	}
 	for _, host := range hosts {
-		delete(set.all, host.Addr)
+		// hosts are identified by address: it is the stored object that leaves
+		// the set (callers may pass a freshly built host with the same address).
+		if stored, ok := set.all[host.Addr]; ok {
+			delete(set.all, host.Addr)
+			set.dropFromHealthy(stored)
+			stored.markRemoved()
+		}
 		host.markRemoved()
 	}
-	set.removeFromHealthy(hosts...)
+	set.buildHealthyCache()
 }
 
 // MarkHostHealthy marks the given host as healthy.
@@ -401,7 +432,7 @@ func (set *Set) MarkHostHealthy(host *Host) bool {
 	}
 	set.Lock()
 	defer set.Unlock()
-	if _, ok := set.all[host.Addr]; !ok {
+	if cur, ok := set.all[host.Addr]; !ok || cur != host {
 		return false
 	}
 	set.addToHealthy(host)
@@ -415,7 +446,7 @@ func (set *Set) MarkHostUnhealthy(host *Host) bool {
 	}
 	set.Lock()
 	defer set.Unlock()
-	if _, ok := set.all[host.Addr]; !ok {
+	if cur, ok := set.all[host.Addr]; !ok || cur != host {
 		return false
 	}
 	set.removeFromHealthy(host)
